@@ -518,7 +518,9 @@ def main(argv=None):
         'violations': len(violations),
     }
     os.makedirs(os.path.join(VERIF, 'evidence'), exist_ok=True)
-    with open(os.path.join(VERIF, 'evidence', pid + '.json'), 'w') as f:
+    # development runs without the proof stage do not produce evidence
+    ev_path = os.path.join(work, 'evidence.json') if args.no_proof else os.path.join(VERIF, 'evidence', pid + '.json')
+    with open(ev_path, 'w') as f:
         json.dump(ev, f, indent=1, default=str)
 
     for l in known_lines:
